@@ -16,7 +16,8 @@ either defines the next variable or (for '+=') updates an existing one:
 
 Leaf statements may carry 'name' and/or 'density' (keyword arguments of formula()).
 A number `num` is a pair [kind, value] with kind in
-  'i' python int, 'f' python float, 'ni64' numpy.int64, 'ni32' numpy.int32, 'nf64' numpy.float64;
+  'i' python int, 'f' python float, 'ni64' numpy.int64, 'ni32' numpy.int32, 'nf64' numpy.float64,
+  'nf32' numpy.float32, 'frac' fractions.Fraction (value 'p/q' text), 'dec' decimal.Decimal (value decimal text);
 S is [[count-as-'p/q'-string, [Z, A, q] | S], ...]; Q is [[num, [Z, A, q] | Q], ...].
 
 RealMachine executes a program statement by statement through the library;
@@ -51,6 +52,13 @@ def num(spec):
         return np.int32(v)
     if kind == 'nf64':
         return np.float64(v)
+    if kind == 'nf32':
+        return np.float32(v)
+    if kind == 'frac':          # value is the text 'p/q'
+        return Fraction(v)
+    if kind == 'dec':           # value is decimal text
+        from decimal import Decimal
+        return Decimal(v)
     raise ValueError('unknown number kind %r' % (kind,))
 
 
@@ -59,6 +67,10 @@ def frac(spec):
     kind, v = spec
     if kind in ('i', 'ni64', 'ni32'):
         return Fraction(int(v))
+    if kind == 'nf32':
+        return Fraction(float(num(spec)))
+    if kind in ('frac', 'dec'):
+        return Fraction(num(spec))
     return Fraction(float(v))
 
 
